@@ -12,6 +12,14 @@ pub enum FiniteDomain {
 }
 
 impl FiniteDomain {
+    /// Returns true if the domain has no values, e.g. the interval `5..=1`.
+    pub fn is_empty(&self) -> bool {
+        match self {
+            FiniteDomain::Interval(r) => r.is_empty(),
+            FiniteDomain::Sparse(v) => v.is_empty(),
+        }
+    }
+
     pub fn is_singleton(&self) -> bool {
         match self {
             FiniteDomain::Interval(r) => r.start() == r.end(),
